@@ -188,6 +188,26 @@ def map_error(d, lines, fn_of, blk_of, lab_of, fname):
         wf_pre = any(blk_of[s['line_start']] and re.search(r'\bwf\(', lines[s['line_start'] - 1]) for s in sec)
         if wf_pre:
             return '%s/callee_wf' % f, 'precondition', 'wf required by %s does not hold at: %s' % (callee, where), f
+        # the failing call is a lemma call INSIDE woven contract text: Verus assumes the lemma's conclusion from there on, so
+        # the labelled assertion that follows it in the same woven block passes vacuously -- the failure belongs to that label
+        # (else to the nearest label before it), not to the function's generic safety obligation
+        b = blk_of[s0['line_start']] if s0 and s0['line_start'] < len(blk_of) else None
+        if b:
+            lab = None
+            k = s0['line_start']
+            while k < len(blk_of) and blk_of[k] == b:
+                if lab_of[k] and re.search(r'//#', lines[k - 1]):
+                    lab = lab_of[k]
+                    break
+                k += 1
+            k = s0['line_start']
+            while lab is None and k > 0 and blk_of[k] == b:
+                if lab_of[k]:
+                    lab = lab_of[k]
+                    break
+                k -= 1
+            label = lab[0] if lab else 'unlabelled'
+            return '%s/%s#%s' % (b[0], b[1], label), 'precondition', 'lemma call %s at: %s' % (callee, where), b[0]
         return '%s/safety' % f, 'precondition', 'call %s at: %s' % (callee, where), f
     # any span inside a woven block with a label?
     for s in prim + sec:
@@ -388,6 +408,7 @@ def run_unit(unit, tier='quick', tag='main', solver=None):
             nm = None
             for key, fi in info.items():
                 if full.endswith('::%s::%s' % (fi.get('implname'), fi.get('src_name'))) or \
+                        full in ('%s::%s' % (fname[:-3], fi.get('src_name')), '%s::%s_init' % (fname[:-3], fi.get('src_name'))) or \
                         (fi.get('src_name') == full.split('::')[-1] and 'impl&%' in full and sum(1 for k2, f2 in info.items() if f2.get('src_name') == fi.get('src_name')) == 1):
                     nm = key
             if full.startswith(fname[:-3] + '::') and nm in info and fb.get('mode:') == 'exec':
